@@ -33,7 +33,7 @@ from harness.rigs import request as rreq
 from harness.rigs import request_state as rstate
 
 EXE = "drv_c05"
-ROOT_KINDS = ["node", "nic", "service", "application", "fileSystem", "folder"]
+ROOT_KINDS = ["node", "nic", "service", "application", "fileSystem", "folder", "nodeOs", "fsDelete", "domain"]
 
 
 # ------------------------------------------------------------------------------------------ the contract, read from Lean
@@ -72,6 +72,9 @@ class Roots:
         from primaite.simulator.system.services.service import Service
         self.by_rm: Dict[int, Tuple[str, Any, Any]] = {}
         self.keep: List[Any] = []
+        dom = getattr(sim, "domain", None)
+        if dom is not None:
+            self._add("domain", dom, None)
         for node in sim.network.nodes.values():
             self._add("node", node, node)
             self._add_rm("nodeOs", getattr(node, "_os_request_manager", None), node, node)
@@ -199,10 +202,12 @@ def judge_request(rules, exists: bool, outcome: str, action_guards: Optional[Lis
             return {"kind": "contract-rule-not-enforced", "rule": atom.split(":")[0], "component": kind, "class": cls,
                     "depth": d, "outcome": parts[0]}
         return None
-    if action_guards is not None and exists and all(r[2] is True for r in rules) and parts[0] == "failure":
-        # the contract of an ACTION is exact (C05_route_guards is an equality): all its rules hold, the target exists
-        if {r[1] for r in rules} == set(action_guards):
-            return {"kind": "refused-by-a-rule-outside-the-contract", "depth": int(parts[1]), "outcome": parts[0]}
+    if parts[0] == "failure" and all(r[2] is True for r in rules):
+        # the contract is EXACT and COMPLETE (C05_contract_exact: every component root carries exactly its gates, every other
+        # manager no rule at all): with stubbed handlers a `failure` can only come from a validator, and every rule the contract
+        # knows on this route holds — so a rule OUTSIDE the contract refused it (type-specific verbs carry none).
+        # (a rule this oracle cannot evaluate — group membership needs a context — has value None: no judgement)
+        return {"kind": "refused-by-a-rule-outside-the-contract", "depth": int(parts[1]), "outcome": parts[0]}
     return None
 
 
@@ -243,6 +248,16 @@ def zoo_extras(sim) -> List[str]:
                 node.apply_timestep(t)
         except Exception as e:
             notes.append(f"zoo: node type {disc} not built: {type(e).__name__}: {str(e)[:80]}")
+    # a node whose power transitions take NO time (start_up_duration 0 is legal and used by the repository's own fixtures):
+    # zero-duration fast paths in handlers rely on the permission rule having checked the state
+    try:
+        from primaite.simulator.network.hardware.nodes.host.computer import Computer
+        fast = Computer.from_config(config={"type": "computer", "hostname": "zoo_fastboot", "ip_address": "192.168.250.10",
+                                            "subnet_mask": "255.255.255.0", "start_up_duration": 0, "shut_down_duration": 2})
+        fast.power_on()
+        sim.network.add_node(fast)
+    except Exception as e:
+        notes.append(f"zoo: fast-boot computer not built: {type(e).__name__}: {str(e)[:80]}")
     host = next((n for n in sim.network.nodes.values() if type(n).__name__ == "Server"), None)
     if host is not None:
         for name, cls in sorted({**Application._registry, **Service._registry}.items()):
@@ -272,6 +287,10 @@ def do(sim, ops: List[Any], req: List[Any]) -> str:
         st = "raised " + type(e).__name__
     ops.append(list(req))
     return st
+
+
+def _fastboot(node) -> bool:
+    return getattr(node.config, "start_up_duration", None) == 0
 
 
 def falsifiers(sim, node, rng: Rng, per_class_seen: set, clock: List[int]):
@@ -352,7 +371,7 @@ def falsifiers(sim, node, rng: Rng, per_class_seen: set, clock: List[int]):
             yield ("folder:deleted", "fileSystem", fs, list(ops))
             do(sim, ops, b + ["restore", "folder", "verif_dir"])
     # ---- power (last: everything above needs the node ON)
-    key = ("node", type(node).__name__)
+    key = ("node", type(node).__name__, _fastboot(node))
     if key in per_class_seen:
         return
     per_class_seen.add(key)
@@ -458,7 +477,7 @@ def sweep(ctx: Ctx, label: str, sim, registry, contract: Contract, replay_base: 
     contract.fill(Roots(sim).keys_seen())
     live_left = [live_cap]
     for node in list(sim.network.nodes.values()):
-        cls = type(node).__name__
+        cls = type(node).__name__ + ("/start_up_duration=0" if _fastboot(node) else "")
         if done_node_classes.get(cls, 0) >= max_nodes_per_class:
             continue
         done_node_classes[cls] = done_node_classes.get(cls, 0) + 1
@@ -581,13 +600,13 @@ def raw_live(ctx: Ctx, label: str, sim, replay_base: dict, cap: int = 600) -> No
         status = getattr(resp, "status", None) if not isinstance(resp, Exception) else "raised"
         ctx.count(f"raw-live:{status}")
         if status == "raised":
-            ctx.violation({"kind": "request-raises", "phase": "handler", "family": "raw-route-without-options", "exc": out.split()[1],
+            ctx.violation({"kind": "request-raises", "phase": "handler", "family": "raw-route-missing-options", "exc": out.split()[1],
                            "handler": "/".join(str(x) for x in sh[-2:])},
                           f"[{label}] route {req} of the live tree, sent with the real handlers and no options, raised {out.split()[1]} "
                           f"({msg}) at {where} instead of answering",
                           dict(replay_base, ops=[], req=req, state="initial", raw_live=True, observed=out))
         elif status not in ("success", "failure", "unreachable", "pending"):
-            ctx.violation({"kind": "undocumented-status", "family": "raw-route-without-options", "status": str(status)},
+            ctx.violation({"kind": "undocumented-status", "family": "raw-route-missing-options", "status": str(status)},
                           f"[{label}] route {req} answered {type(resp).__name__} / status {status!r}", dict(replay_base, ops=[], req=req, state="initial"))
     ctx.case({"raw-live": label, "shapes": len(todo)}, True)
 
